@@ -2,6 +2,7 @@
 import os
 import pickle
 import sys
+import uuid
 
 import lena.core 
 import lena.context
@@ -204,14 +205,28 @@ class Cache(object):
         return orig_seq
 
     def _dump_flow_and_yield(self, flow):
-        # fill cache and yield values
-        with open(self._filename, "wb") as f:
-            dump = lambda val: self._dump(val, f, self.protocol)
-            for val in flow:
-                # if there were an error in a next element,
-                # our value will be saved first (before yielding)
-                dump(val)
-                yield val
+        # fill cache and yield values.
+        # Values are dumped into a temporary file, which becomes the cache
+        # only after the flow is exhausted: a run that stopped earlier
+        # must not leave a truncated cache.
+        # The name is unique, so that an abandoned earlier run that is
+        # finalised later can not touch the file of this one.
+        tmp_filename = "{}.{}.part".format(self._filename, uuid.uuid4().hex)
+        finished = False
+        try:
+            with open(tmp_filename, "wb") as f:
+                dump = lambda val: self._dump(val, f, self.protocol)
+                for val in flow:
+                    # if there were an error in a next element,
+                    # our value will be saved first (before yielding)
+                    dump(val)
+                    yield val
+            finished = True
+        finally:
+            if not finished and os.path.exists(tmp_filename):
+                os.remove(tmp_filename)
+        # os.replace is missing in Python 2
+        getattr(os, "replace", os.rename)(tmp_filename, self._filename)
 
 
     def _load_flow(self):
